@@ -121,7 +121,9 @@ theorem C01_neg_timedelta_text : tdStr (-1000000) = "-1 day, 23:59:59".toList :=
 of the fragment int / float / str / bool / Decimal / Path / UUID / date / time / datetime / non-negative timedelta
 (canonical tokens, under the named `StdLaws`) / Enum (members with pairwise different values) / Literal[...] (the value is
 the first member equal to it) / Optional[·] / list[·] / deque[·] / set[·] / frozenset[·] (hashable, pairwise different
-elements, in the iteration order of the instance) / tuple[·, ...] / fixed tuples / NamedTuple classes / dict[str, ·] /
+elements, in the iteration order of the instance) / tuple[·, ...] / fixed tuples / NamedTuple classes / TypedDict classes
+(distinct keys; every Required key present, a NotRequired key present or absent; entries in declaration order — the model
+writes a dict as its item list, Python's dict equality does not look at the order) / dict[str, ·] /
 defaultdict[str, ·] / OrderedDict[str, ·] / Union of tagged dataclasses and None (pairwise different tags, `RT.OtherMember`;
 the tag key is the one of the travelling config and no key of the member, `RT.TagFacts`) / dataclass, tagged or not, — with or without a Meta of its own — whose effective
 Meta (`effMeta ci.cmeta cfg`: any key transforms, `recursive` …) has no skip rule / TIMESTAMP mode, without
@@ -210,6 +212,41 @@ theorem C01_roundtrip_example_containers (std : Std) :
     simp only [List.mem_cons, List.not_mem_nil, or_false] at hp
     subst hp
     exact RT.Conf.bool true
+
+/-- TypedDict values of the fragment exist: for `class TD(TypedDict): a: int; b: NotRequired[str]` both `{'a': 1}` and
+`{'a': 1, 'b': 'x'}` conform, and the round trip of the first one is the theorem's instance. -/
+theorem C01_roundtrip_example_typeddict (std : Std) (laws : StdLaws std) :
+    let td : Ty := .typeddict "TD".toList [("a".toList, .int, true), ("b".toList, .str, false)]
+    RT.Conf std none td (.map .dict [(.str "a".toList, .int 1)]) ∧
+    RT.Conf std none td (.map .dict [(.str "a".toList, .int 1), (.str "b".toList, .str "x".toList)]) ∧
+    loadD std none td (.dict [("a".toList, .int 1)]) = .ok (.map .dict [(.str "a".toList, .int 1)]) := by
+  intro td
+  have h1 : RT.Conf std none td (.map .dict [(.str "a".toList, .int 1)]) := by
+    refine RT.Conf.typeddict "TD".toList [("a".toList, .int, true), ("b".toList, .str, false)] [some (.int 1), none] (by decide) rfl ?_ ?_
+    · intro p hp hn
+      simp only [List.zip_cons_cons, List.zip_nil_right, List.mem_cons, List.not_mem_nil, or_false] at hp
+      rcases hp with rfl | rfl
+      · cases hn
+      · rfl
+    · intro p hp v hv
+      simp only [List.zip_cons_cons, List.zip_nil_right, List.mem_cons, List.not_mem_nil, or_false] at hp
+      rcases hp with rfl | rfl
+      · cases hv; exact RT.Conf.int 1
+      · cases hv
+  refine ⟨h1, ?_, ?_⟩
+  · refine RT.Conf.typeddict "TD".toList [("a".toList, .int, true), ("b".toList, .str, false)] [some (.int 1), some (.str "x".toList)] (by decide) rfl ?_ ?_
+    · intro p hp hn
+      simp only [List.zip_cons_cons, List.zip_nil_right, List.mem_cons, List.not_mem_nil, or_false] at hp
+      rcases hp with rfl | rfl <;> cases hn
+    · intro p hp v hv
+      simp only [List.zip_cons_cons, List.zip_nil_right, List.mem_cons, List.not_mem_nil, or_false] at hp
+      rcases hp with rfl | rfl
+      · cases hv; exact RT.Conf.int 1
+      · cases hv; exact RT.Conf.str _
+  · have := C01_roundtrip_struct std laws none td _ h1 (.dict false [(.str "a".toList, .int 1)]) (by
+      rw [RT.dumpV_dict]
+      simp [dumpPairs, RT.dump_str, RT.dump_int, bind, Except.bind, pure, Except.pure, Except.map])
+    simpa [RT.toJ, RT.toJPairs, RT.keyStr] using this
 
 /-! a Union of tagged dataclasses: `Cat(name: str)` with `Meta.tag = 'cat'`, `Dog(name: str)` with `Meta.tag = 'dog'` -/
 def exCat : ClassInfo := { name := "Cat".toList, cmeta := some { tag := some "cat".toList }, fields := [{ name := "name".toList }] }
